@@ -46,7 +46,9 @@ func lookupIntercept(p *Program, fn *ssa.Function) interceptFn {
 		}
 	}
 	if f, ok := stdIntercepts[name]; ok {
-		return f
+		if !(p.RealFmt && strings.HasPrefix(name, "fmt.")) {
+			return f
+		}
 	}
 	if fn.Pkg != nil {
 		path := fn.Pkg.Pkg.Path()
